@@ -1044,6 +1044,437 @@ func (h *harness) keystoreFlow(r *vh.RNG, i int) {
 	c.Count(fmt.Sprintf("keystore-flow/unlock-after-iv-tamper:%v", uerr == nil))
 }
 
+// ------------------------------------------------------------ stateful KeyStore histories
+
+const (
+	shortUnlock = 300 * time.Millisecond
+	waitSleep   = 700 * time.Millisecond
+	timeMargin  = 80 * time.Millisecond
+)
+
+type hviol struct {
+	sig, what string
+	step      int
+}
+
+type hresult struct {
+	toks      []string // the operations as generated (replayable)
+	mtoks     []string // the same for the model
+	obs       []string // per step: ok|err[:detail]:<lock letters>
+	viols     []hviol
+	ambiguous bool // stopped early: a timed unlock could not be placed before/after an operation with certainty
+}
+
+func hx(p string) string { return "0x" + hex.EncodeToString([]byte(p)) }
+
+func wrongPass(r *vh.RNG, cur string, others []string) string {
+	for {
+		var w string
+		p := []rune(cur)
+		switch r.Intn(8) {
+		case 0:
+			w = ""
+		case 1:
+			w = cur + "x"
+		case 2:
+			if len(p) > 0 {
+				w = string(p[:len(p)-1])
+			}
+		case 3:
+			if len(p) > 0 {
+				q := append([]rune{}, p...)
+				q[r.Intn(len(q))] ^= 1
+				w = string(q)
+			}
+		case 4:
+			w = cur + "é"
+		case 5:
+			w = strings.ToUpper(cur)
+		case 6:
+			w = others[r.Intn(len(others))]
+		default:
+			w = " " + cur
+		}
+		if w != cur && strings.TrimRight(w, "\x00") != strings.TrimRight(cur, "\x00") {
+			return w
+		}
+	}
+}
+
+// genHistory: a random operation sequence over 2-3 accounts; the generator only tracks what it needs to
+// choose right / wrong passphrases (current passphrase of each account)
+func genHistory(r *vh.RNG, n int) []string {
+	nacc := 2 + r.Intn(2)
+	base := []string{"alpha pass", "пароль-Б", "", "gamma#3"}
+	off := r.Intn(4)
+	var cur []string
+	var toks []string
+	for i := 0; i < nacc; i++ {
+		p := base[(off+i)%4]
+		cur = append(cur, p)
+		kind := "new"
+		if r.Bool() {
+			kind = "imp"
+		}
+		toks = append(toks, kind+":"+hx(p))
+	}
+	waits := 0
+	fresh := 0
+	for len(toks) < n {
+		i := r.Intn(nacc)
+		pass := cur[i]
+		right := r.Chance(45)
+		if !right {
+			pass = wrongPass(r, cur[i], cur)
+		}
+		switch r.Intn(12) {
+		case 0, 1, 2:
+			toks = append(toks, fmt.Sprintf("tun:%d:%s:0", i, hx(pass)))
+		case 3:
+			toks = append(toks, fmt.Sprintf("tun:%d:%s:%s", i, hx(pass), []string{"S", "L"}[r.Intn(2)]))
+		case 4:
+			toks = append(toks, fmt.Sprintf("lock:%d", i))
+		case 5:
+			fresh++
+			np := fmt.Sprintf("%s/new%d", cur[i], fresh)
+			toks = append(toks, fmt.Sprintf("upd:%d:%s:%s", i, hx(pass), hx(np)))
+			if right {
+				cur[i] = np // (a deleted account keeps refusing; harmless for the generator)
+			}
+		case 6:
+			toks = append(toks, fmt.Sprintf("exp:%d:%s", i, hx(pass)))
+		case 7:
+			if r.Chance(25) {
+				toks = append(toks, fmt.Sprintf("del:%d:%s", i, hx(pass)))
+			} else {
+				toks = append(toks, fmt.Sprintf("%s:%d", []string{"sig", "sgh", "stx"}[r.Intn(3)], i))
+			}
+		case 8, 9:
+			toks = append(toks, fmt.Sprintf("%s:%d", []string{"sig", "sgh", "stx"}[r.Intn(3)], i))
+		case 10:
+			toks = append(toks, fmt.Sprintf("swp:%d:%s", i, hx(pass)))
+		default:
+			if waits < 2 {
+				waits++
+				toks = append(toks, "wait")
+			}
+		}
+	}
+	return toks
+}
+
+func unhx(s string) string { return string(vh.UnHex(s)) }
+
+// runHistory executes the operations on one KeyStore and evaluates the property after every step
+func runHistory(dir string, toks []string, seed uint64) hresult {
+	res := hresult{toks: toks}
+	ks := keystore.NewKeyStore(dir, 2, 1)
+	r := vh.NewRNG(seed)
+	type acct struct {
+		acc    accounts.Account
+		pass   string // the passphrase the stored file is encrypted with (reference)
+		exists bool
+		key    []byte // known only for imported keys
+		lo, hi time.Time
+		timed  bool
+	}
+	var accts []*acct
+	probeHash := crypto.Keccak256([]byte("probe"))
+	noSign := keystore.NoSignMode()
+	signOK := func(sig []byte, err error, a *acct, h []byte) string {
+		if err != nil {
+			return "err"
+		}
+		pub, perr := crypto.SigToPub(h, sig)
+		if perr != nil || crypto.PubkeyToAddress(pub) != a.acc.Address {
+			return "ok-wrong-address"
+		}
+		return "ok"
+	}
+	locks := func() string {
+		var b strings.Builder
+		for _, a := range accts {
+			sig, err := ks.SignHashAllowed(a.acc, probeHash)
+			switch signOK(sig, err, a, probeHash) {
+			case "ok":
+				b.WriteByte('u')
+			case "err":
+				b.WriteByte('l')
+			default:
+				b.WriteByte('!')
+			}
+		}
+		return b.String()
+	}
+	viol := func(step int, class, what string) {
+		res.viols = append(res.viols, hviol{"keystore-history/" + class, what, step})
+	}
+	for k, tok := range toks {
+		f := strings.Split(tok, ":")
+		var a *acct
+		idx := -1
+		if len(f) > 1 && f[0] != "new" && f[0] != "imp" {
+			idx, _ = strconv.Atoi(f[1])
+			a = accts[idx]
+		}
+		before := locks()
+		var fileBefore []byte
+		if a != nil && a.exists {
+			fileBefore, _ = os.ReadFile(a.acc.URL.Path)
+		}
+		start := time.Now()
+		out := ""
+		mtok := tok
+		hasPass, pass := false, ""
+		var err error
+		switch f[0] {
+		case "new", "imp":
+			p := unhx(f[1])
+			na := &acct{pass: p, exists: true}
+			if f[0] == "new" {
+				na.acc, err = ks.NewAccount(p)
+			} else {
+				key := genKey(r, 1+r.Intn(3))
+				na.key = crypto.FromECDSA(key)
+				na.acc, err = ks.ImportECDSA(key, p)
+			}
+			accts = append(accts, na)
+			mtok = "new:" + f[1]
+		case "tun":
+			hasPass, pass = true, unhx(f[2])
+			switch f[3] {
+			case "0":
+				err = ks.Unlock(a.acc, pass)
+			case "S":
+				err = ks.TimedUnlock(a.acc, pass, shortUnlock)
+				mtok = fmt.Sprintf("tun:%d:%s:10", idx, f[2])
+			default:
+				err = ks.TimedUnlock(a.acc, pass, time.Hour)
+				mtok = fmt.Sprintf("tun:%d:%s:1000000", idx, f[2])
+			}
+		case "lock":
+			err = ks.Lock(a.acc.Address)
+		case "upd":
+			hasPass, pass = true, unhx(f[2])
+			err = ks.Update(a.acc, pass, unhx(f[3]))
+		case "exp":
+			hasPass, pass = true, unhx(f[2])
+			var js []byte
+			js, err = ks.Export(a.acc, pass, pass+"-exported")
+			if err == nil {
+				kk, derr := keystore.DecryptKey(js, pass+"-exported")
+				if derr != nil || kk.Address != a.acc.Address || (a.key != nil && !bytes.Equal(crypto.FromECDSA(kk.PrivateKey), a.key)) {
+					out = "ok-bad-export"
+				}
+			}
+		case "del":
+			hasPass, pass = true, unhx(f[2])
+			err = ks.Delete(a.acc, pass)
+		case "sig", "sgh", "stx":
+			mtok = fmt.Sprintf("sig:%d", idx)
+			h := r.Bytes(32)
+			switch {
+			case f[0] == "sgh" && !noSign:
+				sig, e := ks.SignHash(a.acc, h)
+				out = signOK(sig, e, a, h)
+			case f[0] == "stx" && !noSign:
+				cid := []*big.Int{nil, big.NewInt(61717561)}[r.Intn(2)]
+				tx, e := ks.SignTx(a.acc, types.NewTransaction(1, common.Address{9}, big.NewInt(1), 21000, big.NewInt(1), nil), cid)
+				out = "err"
+				if e == nil {
+					var sg types.Signer = types.HomesteadSigner{}
+					if cid != nil {
+						sg = types.NewEIP155Signer(cid)
+					}
+					out = "ok-wrong-address"
+					if from, e2 := types.Sender(sg, tx); e2 == nil && from == a.acc.Address {
+						out = "ok"
+					}
+				}
+			default:
+				sig, e := ks.SignHashAllowed(a.acc, h)
+				out = signOK(sig, e, a, h)
+			}
+		case "swp":
+			hasPass, pass = true, unhx(f[2])
+			h := r.Bytes(32)
+			if noSign {
+				// SignHashWithPassphrase is disabled in this process; use the same path it takes (getDecryptedKey)
+				_, e := ks.Export(a.acc, pass, "x")
+				out = "err"
+				if e == nil {
+					out = "ok"
+				}
+			} else {
+				sig, e := ks.SignHashWithPassphrase(a.acc, pass, h)
+				out = signOK(sig, e, a, h)
+			}
+		case "wait":
+			time.Sleep(waitSleep)
+			for _, x := range accts {
+				if x.timed {
+					for time.Now().Before(x.hi.Add(timeMargin)) {
+						time.Sleep(20 * time.Millisecond)
+					}
+					x.timed = false
+				}
+			}
+			mtok = "wait:20"
+		}
+		end := time.Now()
+		if out == "" {
+			out = "ok"
+			if err != nil {
+				out = "err"
+			}
+		}
+		// a pending short unlock must lie clearly in the future, otherwise what this step should have seen is undecided
+		for _, x := range accts {
+			if x.timed && !end.Before(x.lo.Add(-timeMargin)) {
+				res.ambiguous = true
+			}
+		}
+		if res.ambiguous {
+			break
+		}
+		after := locks()
+		if t2 := time.Now(); true {
+			for _, x := range accts {
+				if x.timed && !t2.Before(x.lo.Add(-timeMargin)) {
+					res.ambiguous = true
+				}
+			}
+			if res.ambiguous {
+				break
+			}
+		}
+		res.mtoks = append(res.mtoks, mtok)
+		res.obs = append(res.obs, out+":"+after)
+		// ---- the property, evaluated on the implementation (independent of the model)
+		if strings.Contains(after, "!") || out == "ok-wrong-address" {
+			viol(k, "signature-by-wrong-address/"+f[0], "a signature made by the KeyStore does not recover to the account's address")
+		}
+		if out == "ok-bad-export" {
+			viol(k, "export-not-decryptable/"+f[0], "an exported key does not decrypt to the account's key with the new passphrase")
+		}
+		if hasPass {
+			right := a.exists && pass == a.pass
+			if !right {
+				if out != "err" {
+					viol(k, "wrong-passphrase-accepted/"+f[0], "an operation given a passphrase other than the account's returned no error")
+				}
+				if after != before {
+					viol(k, "wrong-passphrase-changed-lock-state/"+f[0], "an operation given a wrong passphrase changed which accounts are unlocked ("+before+" -> "+after+")")
+				}
+				if a.exists {
+					if now, _ := os.ReadFile(a.acc.URL.Path); !bytes.Equal(now, fileBefore) {
+						viol(k, "wrong-passphrase-changed-file/"+f[0], "an operation given a wrong passphrase changed the stored key file")
+					}
+				}
+			} else if out != "ok" {
+				viol(k, "right-passphrase-refused/"+f[0], "an operation given the account's passphrase failed: "+fmt.Sprint(err))
+			}
+			// reference bookkeeping for right-passphrase operations
+			if right && out == "ok" {
+				switch f[0] {
+				case "upd":
+					old := a.pass
+					a.pass = unhx(f[3])
+					if _, e := keystore.VerifGetKey(a.acc.Address, a.acc.URL.Path, a.pass); e != nil {
+						viol(k, "update-lost-key/upd", "after Update the file does not open with the new passphrase")
+					}
+					if old != a.pass {
+						if _, e := keystore.VerifGetKey(a.acc.Address, a.acc.URL.Path, old); e == nil {
+							viol(k, "update-keeps-old-passphrase/upd", "after Update the file still opens with the old passphrase")
+						}
+					}
+				case "del":
+					a.exists = false
+				case "tun":
+					wasForever := before[idx] == 'u' && !a.timed && a.lo.IsZero() == false && false
+					_ = wasForever
+				}
+			}
+		}
+		// timed-unlock bookkeeping (which accounts hold a short unlock and until when, in real time)
+		switch f[0] {
+		case "tun":
+			if out == "ok" && !(before[idx] == 'u' && !a.timed) { // an indefinite unlock is not altered
+				a.timed = f[3] == "S"
+				if a.timed {
+					a.lo, a.hi = start.Add(shortUnlock), end.Add(shortUnlock)
+				}
+			}
+		case "lock":
+			a.timed = false
+		}
+		if f[0] == "sig" || f[0] == "sgh" || f[0] == "stx" {
+			if (out == "ok") != (before[idx] == 'u') {
+				viol(k, "sign-disagrees-with-lock-state/"+f[0], "signing succeeded on a locked account or failed on an unlocked one")
+			}
+		}
+	}
+	return res
+}
+
+func (h *harness) histories() {
+	c := h.c
+	n := c.Scale(24, 300)
+	results := make([]hresult, n)
+	hists := make([][]string, n)
+	seeds := make([]uint64, n)
+	for i := range hists {
+		hists[i] = genHistory(c.Rng, 14+c.Rng.Intn(14))
+		seeds[i] = c.Rng.Uint64()
+	}
+	// directed prefix: unlock indefinitely with the right passphrase, then try wrong ones without locking in between
+	hists[0] = []string{"new:" + hx("alpha pass"), "imp:" + hx("пароль-Б"), "tun:0:" + hx("alpha pass") + ":0", "tun:0:" + hx("alpha pas") + ":0", "tun:0:" + hx("") + ":S",
+		"tun:0:" + hx("пароль-Б") + ":L", "sig:0", "tun:1:" + hx("alpha pass") + ":0", "sig:1", "upd:0:" + hx("wrong") + ":" + hx("n"), "exp:0:" + hx("alpha pass "), "del:0:" + hx("Alpha pass"),
+		"lock:0", "tun:0:" + hx("alpha pasS") + ":0", "sig:0", "tun:0:" + hx("alpha pass") + ":L", "tun:0:" + hx("x") + ":0", "sig:0"}
+	sem := make(chan struct{}, 8)
+	done := make(chan int, n)
+	for i := range hists {
+		go func(i int) {
+			sem <- struct{}{}
+			d, _ := os.MkdirTemp(h.dir, "hist")
+			results[i] = runHistory(d, hists[i], seeds[i])
+			<-sem
+			done <- i
+		}(i)
+	}
+	for range hists {
+		<-done
+	}
+	for i, res := range results {
+		h.reportHistory(res, i)
+	}
+}
+
+func (h *harness) reportHistory(res hresult, i int) {
+	c := h.c
+	if res.ambiguous {
+		c.Count("keystore-history/stopped-early(timing undecided)")
+	}
+	for _, o := range res.obs {
+		c.Count("keystore-history/step:" + strings.SplitN(o, ":", 2)[0])
+	}
+	key := ""
+	if len(res.obs) > 0 {
+		key = strings.Join(res.mtoks, " ")
+	}
+	c.Eval(fmt.Sprintf("keystore-history/len%d", len(res.obs)/5*5), key)
+	if len(res.mtoks) > 0 {
+		c.Correspond("KeyStore operation history~ks_run", strings.Join(res.toks[:len(res.mtoks)], " "), strings.Join(res.obs, " "), h.m.Ask("ks "+strings.Join(res.mtoks, " ")))
+	}
+	for _, v := range res.viols {
+		c.Violate(v.sig+"/"+strings.Join(res.toks[:v.step+1], " "), v.what,
+			map[string]interface{}{"history": strings.Join(res.toks[:v.step+1], " "), "failing_step": v.step, "operation": res.toks[v.step], "observed": res.obs[:min(len(res.obs), v.step+1)]})
+	}
+	if i < 2 {
+		c.Sample(map[string]interface{}{"history": strings.Join(res.toks, " "), "observed": strings.Join(res.obs, " ")})
+	}
+}
+
 // ------------------------------------------------------------ main
 
 func main() {
@@ -1150,6 +1581,8 @@ func main() {
 		h.check("scrypt-v3/version-downgrade", spec, mut, pass, "version=1")
 		break
 	}
+	// 3c. stateful KeyStore histories against the lock-state machine
+	h.histories()
 	// 4. KeyStore API
 	for i := 0; i < c.Scale(4, 24); i++ {
 		h.keystoreFlow(r, i)
@@ -1168,6 +1601,16 @@ func replay(h *harness, file string) {
 	}
 	var rp struct {
 		Replay map[string]string `json:"replay"`
+	}
+	var hp struct {
+		Replay struct {
+			History string `json:"history"`
+		} `json:"replay"`
+	}
+	if json.Unmarshal(raw, &hp) == nil && hp.Replay.History != "" {
+		d, _ := os.MkdirTemp(h.dir, "hist")
+		h.reportHistory(runHistory(d, strings.Fields(hp.Replay.History), 1), 0)
+		return
 	}
 	if err := json.Unmarshal(raw, &rp); err != nil || rp.Replay["json"] == "" {
 		h.c.Fatal("replay: unusable file")
